@@ -50,6 +50,7 @@ def run(rep, tier, seed, replay):
     # stacks of entry filters over path walks: the yielded entries are exactly those every layer keeps (from the recorded tree alone)
     from props import c13
     direct = [c for c in walklib.gen_cases(seed + 3, n * 2, stack=c13.filter_stack, bounds="none", mode="p", link="f") if c.labels["base"] in ("root", "subdir")]
+    direct += c13.followed_link_cases(seed + 6, n * 2)
     if replay is not None:
         direct = []
     walklib.run_cases(cases + direct)
